@@ -308,7 +308,7 @@ def eval_structure_case(ctx, model, case, prop='C01', V=None, checks=('model', '
                     ctx.problem('oracle', 'class %d: semivariance %r, documented estimator over the class pairs gives %r' % (i, float(exp[i]), want),
                                 case, {'class': i, 'impl': float(exp[i]), 'doc': want, 'n_pairs': len(mem)})
                     break
-        nonempty = sum(1 for m_ in members if m_)
+    nonempty = int(sum(1 for k_ in counts.tolist() if k_ > 0))
     ctx.case_done(case, nonempty >= 2)
     return V
 
